@@ -331,6 +331,9 @@ func (m *Module) onRespond(w *engine.World, tx *engine.TxRecord, op *engine.Op, 
 		}
 	}
 	w.Hit("C08.respond_verdicts")
+	if shape == "valid" && single && (!a.Custom || wellFormedAnswer(rid, signer, a)) {
+		w.Hit("C08.respond_verdicts_valid_answer_judged")
+	}
 	if !tx.OK() {
 		// "answered once by the provider it was addressed to while it is still active": a
 		// well-formed answer of the addressed provider to an active request must be taken
